@@ -26,6 +26,8 @@ CONSTANTS Classes, Contexts,
           FontFix, BgFix,  \* FALSE as pinned; TRUE = proposed repairs (fixes/C05-*.diff)
           TrackAttribution,\* TRUE: carry what is needed to attribute a break to its root cause (second consumer, used branches)
           AttrEscapes,     \* 2 as pinned (escaped in SanitizeStyleAttributeValues AND by the generator); 1 = repaired; 0 = negative
+          KvSafeProp,      \* how KeyValue[string, SafeCSSProperty] is treated: "unsupported" as coded (not in the type switch:
+                           \* the fixed text zTemplUnsupportedStyleAttributeValue), "sanitised" (supported correctly), "raw" (negative)
           EmitEdges
 
 VARIABLES cls, ctx, phase, acc, con, con1, raw, res, lbl
@@ -255,6 +257,23 @@ InnocuousOnReject == phase = "closed" /\ res.br = "" => res.ev = ""
 KnownSigs == {"FontFamily.QuotedSegment", "BackgroundImage.UrlDQ", "BackgroundImage.UrlSQ", "BackgroundImage.UrlBare",
               "StyleAttr.DoubleEscape"}
 OneDeclarationBut == phase = "closed" /\ res.br # "" /\ res.ev # "" => res.sig \in KnownSigs
+
+(* Argument forms of runtime.SanitizeStyleAttributeValues (its type switch and doc comment), also inside slices and
+   returned from funcs. What each form does with a NAME and a VALUE that are plain strings:
+     "sanitised"    through safehtml.SanitizeCSS / SanitizeCSSProperty (classes above)
+     "trusted"      the part has type SafeCSS / SafeCSSProperty: author-vouched, out of scope
+     "unsupported"  the form is not handled: the fixed innocuous text is written
+     "raw"          written as it is
+   Rule (C05): a plain-string name or value is always sanitised, whatever typed partner it travels with.           *)
+StyleArgForms == <<
+   [form |-> "map_string",   name |-> "sanitised", value |-> "sanitised"],
+   [form |-> "map_safeprop", name |-> "sanitised", value |-> "trusted"],
+   [form |-> "kv_string",    name |-> "sanitised", value |-> "sanitised"],
+   [form |-> "kv_safeprop",  name |-> KvSafeProp,  value |-> IF KvSafeProp = "unsupported" THEN "unsupported" ELSE "trusted"] >>
+\* forms without a plain-string name/value pair (author-trusted text as a whole): string, SafeCSS, KeyValue[string,bool],
+\* KeyValue[SafeCSS,bool]
+StyleArgWrappers == <<"direct", "slice", "func", "func_err", "slice_of_func">>
+ArgRule == phase \in {"in", "closed"} => \A i \in 1..Len(StyleArgForms) : StyleArgForms[i].name \in {"sanitised", "unsupported"} /\ StyleArgForms[i].value # "raw"
 
 (* class table: single source of truth for the harness (code point ranges, inclusive); every other ASCII
    character is its own symbol; an invalid byte is treated as U+FFFD (NA) *)
